@@ -411,3 +411,58 @@ theorem original_union_single_instance_two_rows_witness :
   rfl
 
 end SkVerif.C16
+
+namespace SkVerif.C16
+
+/-! ## Cells read by label; integer-typed cells (known findings) -/
+
+/- FULL STATEMENT (container invariance of DerivativeSlopeTransformer; NOT provable for the code as it is):
+     ∀ labels vals, labels.length = vals.length → getDerByLabel labels vals = getDerByPosition vals
+   `get_der(x)` reads `x[i]` on the cell Series, i.e. by LABEL: cells that do not carry the default 0..n-1
+   time index raise KeyError (or, for other origins, read shifted values), while the 3-D array of the same
+   numbers is converted to default-indexed cells first. -/
+
+/-- with the default time index reading by label is reading by position -/
+theorem getDer_default_index_partial (vals : List Rat) :
+    getDerByLabel (labelsFrom 0 vals.length) vals = getDerByPosition vals := by
+  unfold getDerByLabel getDerByPosition
+  have : (fun (k : Nat) => derAt (lookupCell (labelsFrom 0 vals.length) vals) (Int.ofNat k + 1))
+       = (fun (k : Nat) => derAt (cellAt vals) (Int.ofNat k + 1)) := by
+    funext k
+    unfold derAt
+    simp only [Lem.lookupCell_labelsFrom 0 vals, Int.sub_zero]
+  rw [this]
+
+example : labelsFrom 0 4 = [0, 1, 2, 3] := by decide
+
+/-- NEGATION at a witness: the same four numbers in cells labelled 1..4 are rejected (KeyError) -/
+theorem getDer_label_origin_witness :
+    getDerByLabel [1, 2, 3, 4] [1, 2, 4, 8] = .error .key ∧ (getDerByPosition [1, 2, 4, 8]).toBool = true := by
+  constructor <;> rfl
+
+/- FULL STATEMENT (a series is the same series whatever dtype stores its whole numbers; NOT provable):
+     ∀ ys, meanAsStored true ys = meanAsStored false ys
+   `SlopeTransformer._get_gradient` takes `statistics.mean(Y)`, which converts the exact mean back to the
+   type of the data; for numpy integers that truncates. -/
+
+/-- float-typed cells get the exact mean; integer-typed cells too when the mean is whole -/
+theorem meanAsStored_partial (ys : List Rat) :
+    meanAsStored false ys = ys.sum / (ys.length : Rat) ∧
+    (∀ z : Int, ys.sum / (ys.length : Rat) = (z : Rat) → meanAsStored true ys = meanAsStored false ys) := by
+  refine ⟨rfl, ?_⟩
+  intro z hz
+  unfold meanAsStored
+  simp only [hz, if_true, Bool.false_eq_true, if_false]
+  by_cases h : (z : Rat) < 0
+  · simp only [h, if_true]
+    have : (-(z : Rat)).floor = -z := by
+      rw [← Rat.intCast_neg]; exact Rat.floor_intCast (-z)
+    rw [this]; simp
+  · simp only [h, if_false]
+    rw [Rat.floor_intCast]
+
+/-- NEGATION at a witness: the instance (1, 2) stored as integers has "mean" 1, stored as floats 3/2 -/
+theorem meanAsStored_int_witness : meanAsStored true [1, 2] ≠ meanAsStored false [1, 2] := by
+  decide +kernel
+
+end SkVerif.C16
